@@ -332,9 +332,18 @@ def list_items(v, env):
 
 def feasible(state):
   """False when the path carries a comparison between two numbers that is false (a branch the walker could not prune)."""
+  eq, ne = {}, {}
   for fc in state.facts:
     if _eval_fact(fc, []) is False:
       return False
+    if isinstance(fc, tuple) and len(fc) == 4 and fc[0] == "cmp" and fc[1] in ("Eq", "NotEq"):
+      for x, y in ((fc[2], fc[3]), (fc[3], fc[2])):
+        if isinstance(x, Poly) and x.as_int() is None and isinstance(y, (Poly, int)) and (Poly.const(y) if isinstance(y, int) else y).as_int() is not None:
+          c = (Poly.const(y) if isinstance(y, int) else y).as_int()
+          (eq if fc[1] == "Eq" else ne).setdefault(repr(x), set()).add(c)
+  for k, vs in eq.items():
+    if len(vs) > 1 or (vs & ne.get(k, set())):
+      return False          # x == c together with x == c' or x != c: the walker does not prune across reordered comparisons
   return True
 
 
